@@ -12,13 +12,13 @@ import (
 
 func parseAddr(s string) (interface{}, error) {
 	base := 10
-	if len(s) > 2 && s[:2] == "0x" || s[:2] == "0X" {
+	if len(s) >= 2 && (s[:2] == "0x" || s[:2] == "0X") {
 		base = 16
 		s = s[2:]
-	} else if len(s) == 2 && s[:2] == "0b" || s[:2] == "0B" {
+	} else if len(s) >= 2 && (s[:2] == "0b" || s[:2] == "0B") {
 		base = 2
 		s = s[2:]
-	} else if len(s) > 0 && s[0] == '0' {
+	} else if len(s) > 1 && s[0] == '0' {
 		base = 8
 		s = s[1:]
 	}
